@@ -87,6 +87,7 @@ public:
     try
     {
       load();
+      dropExpiredAfterLoad();
       openLogFile();
       if (_config.enableBackgroundCompaction)
       {
@@ -1297,8 +1298,6 @@ private:
 
   void load()
   {
-    const auto now = std::chrono::system_clock::now();
-
     // Load snapshot with robust error handling
     std::ifstream snapshot(_path, std::ios::binary);
     if (snapshot.is_open())
@@ -1374,13 +1373,10 @@ private:
           }
           else if (isPlausibleEpochMs(expiryMs))
           {
-            const auto exp = fromEpochMs(expiryMs);
-            if (exp > now)
-            {
-              _kv[key] = std::move(value);
-              _expiry[key] = ExpiryEntry{exp, core::InvalidTimerId};
-            }
-            // else: already expired at load — drop the entry entirely.
+            // Whether the expiry has passed is judged once, in dropExpiredAfterLoad():
+            // an 'X' record in the log may still extend or clear it.
+            _kv[key] = std::move(value);
+            _expiry[key] = ExpiryEntry{fromEpochMs(expiryMs), core::InvalidTimerId};
           }
           // else: implausible (corrupt) expiry — drop the entry, mirroring the
           // 'E' log op's sanity-bound rejection (KTP-11). NOT kept as eternal.
@@ -1516,17 +1512,11 @@ private:
         }
         std::vector<std::uint8_t> value(valLen);
         std::memcpy(value.data(), ptr, valLen);
-        const auto exp = fromEpochMs(expiryMs);
-        if (exp > now)
-        {
-          _kv[key] = std::move(value);
-          _expiry[key] = ExpiryEntry{exp, core::InvalidTimerId};
-        }
-        else
-        {
-          _kv.erase(key); // already expired → drop
-          _expiry.erase(key);
-        }
+        // Whether the expiry has passed is judged once, in dropExpiredAfterLoad(): a later
+        // 'X' record may extend or clear it (dropping the key here loses keys whose TTL was
+        // extended or removed before it ran out).
+        _kv[key] = std::move(value);
+        _expiry[key] = ExpiryEntry{fromEpochMs(expiryMs), core::InvalidTimerId};
       }
       else if (op == 'X')
       {
@@ -1546,16 +1536,7 @@ private:
         }
         else if (isPlausibleEpochMs(expiryMs))
         {
-          const auto exp = fromEpochMs(expiryMs);
-          if (exp > now)
-          {
-            _expiry[key] = ExpiryEntry{exp, core::InvalidTimerId};
-          }
-          else
-          {
-            _kv.erase(key); // expiry already past → drop the key
-            _expiry.erase(key);
-          }
+          _expiry[key] = ExpiryEntry{fromEpochMs(expiryMs), core::InvalidTimerId};
         }
         // implausible expiry → ignore
       }
@@ -1563,6 +1544,26 @@ private:
       {
         _kv.erase(key);
         _expiry.erase(key);
+      }
+    }
+  }
+
+  /// \brief Drop every key whose expiry has passed. Called once, right after load(): during
+  /// replay the expiry is not evaluated per record because a later 'X' record (expireAt /
+  /// persist) may extend or clear it.
+  void dropExpiredAfterLoad()
+  {
+    const auto now = std::chrono::system_clock::now();
+    for (auto it = _expiry.begin(); it != _expiry.end();)
+    {
+      if (it->second.expiry <= now)
+      {
+        _kv.erase(it->first);
+        it = _expiry.erase(it);
+      }
+      else
+      {
+        ++it;
       }
     }
   }
